@@ -455,10 +455,6 @@ pub fn lexa(fields: &[&str]) -> String
 	}
 	out.join(" ")
 }
-pub fn rebuild(_fields: &[&str]) -> String
-{
-	"todo".into()
-}
 fn render_all(errors: &[penne::alpha::Error], units: &[(String, String)]) -> Result<usize, String>
 {
 	// every colour / charset configuration the CLI offers (stdout.rs: StdOut::new)
